@@ -5,6 +5,7 @@ from __future__ import annotations
 
 import datetime
 import io
+import itertools
 import json
 
 from .. import refbatch, streams, values
@@ -397,6 +398,21 @@ def run_c18(tier):
             big += 1
         items.append((f"reference-encoded batch, edits={[list(e) for e in edits]}", data, model, faults))
     run.notes["batches_identity_only"] = big
+    # batches that a NewRecordBatch cannot express: zero records (left behind by log compaction),
+    # base offset / timestamps not derived from the records
+    extra = 0
+    for ple, attrs, lod, bo in itertools.product((0, 7), (0, 16), (0, 41), (0, 2**40)):
+        for recs in ([], [{"attributes": 0, "timestamp": 5000, "offset": bo + 3, "key": None, "value": b"v", "headers": []}]):
+            m = {"base_offset": bo, "partition_leader_epoch": ple, "attributes": attrs, "last_offset_delta": lod,
+                 "base_timestamp": 1000, "max_timestamp": 9000, "producer_id": -1, "producer_epoch": -1,
+                 "base_sequence": -1, "records": recs}
+            data, model = refbatch.encode_model(m)
+            back, used = refbatch.decode_batch(data)
+            if back != model or used != len(data):
+                raise HarnessError("reference batch model is not self-consistent on a hand-built batch")
+            items.append((f"hand-built batch, {len(recs)} records, base_offset={bo}", data, model, True))
+            extra += 1
+    run.notes["hand_built_batches_incl_empty"] = extra
     items = list(enumerate(items))
     run.rng.shuffle(items)
     for res in pmap(_task_c18, chunks(items, max(1, len(items) // 64))):
